@@ -61,7 +61,9 @@ type LintConfig struct {
 func Lint(stream io.Reader, lc LintConfig) error {
 	err := parser.ParseStreamCallback(stream, lc.ParserConfig, func(node *shared.ParserNode, err error) (stop bool, cbError error) {
 		if err != nil {
-			fmt.Fprintln(lc.ReporterConfig.Output, err)
+			if _, writeErr := fmt.Fprintln(lc.ReporterConfig.Output, err); writeErr != nil {
+				return true, writeErr
+			}
 		}
 		return false, nil
 	})
@@ -69,7 +71,9 @@ func Lint(stream io.Reader, lc LintConfig) error {
 		return err
 	}
 	if !lc.Silent {
-		fmt.Fprintln(lc.ReporterConfig.Output, "No errors found")
+		if _, err = fmt.Fprintln(lc.ReporterConfig.Output, "No errors found"); err != nil {
+			return err
+		}
 	}
 	return nil
 }
